@@ -189,19 +189,52 @@ func optTok(ok bool, s string) string {
 	return hx(s)
 }
 
-func tokCol(c *schema.Column, w *[]string) {
+// tokDialect selects the class numbering and the encoding of the dialect attributes
+// (see coq/theories/Diff/DiffDialects.v).
+var tokDialect = "sqlite"
+
+const us = "\x1f"
+
+func tokCol(t *schema.Table, c *schema.Column, w *[]string) {
 	cls, T := 0, ""
 	if c.Type != nil && c.Type.Type != nil {
-		k, ok := sqliteClass[reflect.TypeOf(c.Type.Type)]
-		if !ok {
-			panic(fmt.Sprintf("no class for %T", c.Type.Type))
+		switch tokDialect {
+		case "sqlite":
+			k, ok := sqliteClass[reflect.TypeOf(c.Type.Type)]
+			if !ok {
+				panic(fmt.Sprintf("no class for %T", c.Type.Type))
+			}
+			cls = k
+			if u, ok := c.Type.Type.(*sqlite.UserDefinedType); ok {
+				T = u.T
+			} else if f, err := sqlite.FormatType(c.Type.Type); err == nil {
+				T = f
+			}
+		case "mysql":
+			cls, T = mysqlClassID(c.Type.Type)
+		case "postgres":
+			cls, T = pgClassID(c.Type.Type)
 		}
-		cls = k
-		if u, ok := c.Type.Type.(*sqlite.UserDefinedType); ok {
-			T = u.T
-		} else if f, err := sqlite.FormatType(c.Type.Type); err == nil {
-			T = f
+	}
+	switch tokDialect {
+	case "mysql":
+		var cs, tcs schema.Charset
+		var co, tco schema.Collation
+		hasAttr(c.Attrs, &cs)
+		hasAttr(c.Attrs, &co)
+		hasAttr(t.Attrs, &tcs)
+		hasAttr(t.Attrs, &tco)
+		T = strings.Join([]string{T, cs.V, co.V, tcs.V, tco.V}, us)
+	case "postgres":
+		id := &postgres.Identity{}
+		f := []string{T, "", "", "", ""}
+		if hasAttr(c.Attrs, id) {
+			f[1], f[2], f[3], f[4] = "1", id.Generation, "1", "1"
+			if id.Sequence != nil {
+				f[3], f[4] = strconv.FormatInt(id.Sequence.Start, 10), strconv.FormatInt(id.Sequence.Increment, 10)
+			}
 		}
+		T = strings.Join(f, us)
 	}
 	d := "~"
 	switch x := c.Default.(type) {
@@ -218,6 +251,106 @@ func tokCol(c *schema.Column, w *[]string) {
 	var cm schema.Comment
 	hasC := hasAttr(c.Attrs, &cm)
 	*w = append(*w, hx(c.Name), strconv.Itoa(cls), hx(T), b01(c.Type.Null), d, g, optTok(hasC, cm.Text))
+}
+
+// class numbers shared with DiffDialects.v
+var genericClass = map[reflect.Type]int{
+	reflect.TypeOf(&schema.IntegerType{}):     2,
+	reflect.TypeOf(&schema.StringType{}):      3,
+	reflect.TypeOf(&schema.FloatType{}):       4,
+	reflect.TypeOf(&schema.BinaryType{}):      5,
+	reflect.TypeOf(&schema.DecimalType{}):     6,
+	reflect.TypeOf(&schema.BoolType{}):        7,
+	reflect.TypeOf(&schema.TimeType{}):        8,
+	reflect.TypeOf(&schema.JSONType{}):        9,
+	reflect.TypeOf(&schema.UUIDType{}):        10,
+	reflect.TypeOf(&schema.EnumType{}):        12,
+	reflect.TypeOf(&schema.SpatialType{}):     13,
+	reflect.TypeOf(&schema.UnsupportedType{}): 14,
+}
+
+func mysqlClassID(t schema.Type) (int, string) {
+	switch t := t.(type) {
+	case *schema.IntegerType:
+		id := t.T
+		if t.Unsigned {
+			id += " unsigned"
+		}
+		return 2, id
+	case *schema.EnumType:
+		return 12, strings.Join(t.Values, "\x00")
+	case *mysql.SetType:
+		return 16, strings.Join(t.Values, "\x00")
+	case *mysql.BitType:
+		f, _ := mysql.FormatType(t)
+		return 15, f
+	case *mysql.NetworkType:
+		f, _ := mysql.FormatType(t)
+		return 17, f
+	}
+	k, ok := genericClass[reflect.TypeOf(t)]
+	if !ok {
+		panic(fmt.Sprintf("mysql: no class for %T", t))
+	}
+	f, err := mysql.FormatType(t)
+	if err != nil {
+		panic(err)
+	}
+	return k, f
+}
+
+func pgClassID(t schema.Type) (int, string) {
+	switch t := t.(type) {
+	case *postgres.UserDefinedType:
+		return 1, t.T
+	case *schema.EnumType:
+		return 12, t.T
+	case *postgres.ArrayType:
+		if t.Type == nil {
+			return 18, ""
+		}
+		f, err := postgres.FormatType(t.Type)
+		if err != nil {
+			panic(err)
+		}
+		return 18, f
+	case *postgres.CompositeType:
+		return 20, t.T
+	case *postgres.DomainType:
+		return 21, t.T
+	case *postgres.CurrencyType:
+		return 22, t.T
+	case *postgres.XMLType:
+		return 23, t.T
+	}
+	k, ok := genericClass[reflect.TypeOf(t)]
+	if !ok {
+		switch t.(type) {
+		case *postgres.BitType:
+			k = 15
+		case *postgres.NetworkType:
+			k = 17
+		case *postgres.SerialType:
+			k = 19
+		case *postgres.IntervalType:
+			k = 24
+		case *postgres.OIDType:
+			k = 25
+		case *postgres.RangeType:
+			k = 26
+		case *postgres.PseudoType:
+			k = 27
+		case *postgres.TextSearchType:
+			k = 28
+		default:
+			panic(fmt.Sprintf("postgres: no class for %T", t))
+		}
+	}
+	f, err := postgres.FormatType(t)
+	if err != nil {
+		panic(err)
+	}
+	return k, f
 }
 
 // hasAttr is sqlx.Has for the attribute types used here (first attribute of the type).
@@ -245,6 +378,9 @@ func tokIdx(i *schema.Index, w *[]string) {
 		if r, ok := p.X.(*schema.RawExpr); ok {
 			x = hx(r.X)
 		}
+		if sub := (mysql.SubPart{}); tokDialect == "mysql" && p.C != nil && hasAttr(p.Attrs, &sub) {
+			x = hx(strconv.Itoa(sub.Len))
+		}
 		*w = append(*w, strconv.Itoa(p.SeqNo), b01(p.Desc), c, x)
 	}
 	var (
@@ -253,13 +389,40 @@ func tokIdx(i *schema.Index, w *[]string) {
 		or sqlite.IndexOrigin
 	)
 	hp, hc, ho := hasAttr(i.Attrs, &pr), hasAttr(i.Attrs, &cm), hasAttr(i.Attrs, &or)
+	switch tokDialect {
+	case "mysql":
+		var it mysql.IndexType
+		hasAttr(i.Attrs, &it)
+		ho, or.O = true, it.T
+	case "postgres":
+		var (
+			it  postgres.IndexType
+			pp  postgres.IndexPredicate
+			inc postgres.IndexInclude
+			nd  postgres.IndexNullsDistinct
+		)
+		hasAttr(i.Attrs, &it)
+		hp = hasAttr(i.Attrs, &pp)
+		pr.P = pp.P
+		var cols []string
+		if hasAttr(i.Attrs, &inc) {
+			for _, c := range inc.Columns {
+				cols = append(cols, c.Name)
+			}
+		}
+		nnd := ""
+		if hasAttr(i.Attrs, &nd) && !nd.V {
+			nnd = "1"
+		}
+		ho, or.O = true, strings.Join([]string{it.T, nnd, strings.Join(cols, ",")}, us)
+	}
 	*w = append(*w, optTok(hp, pr.P), optTok(hc, cm.Text), optTok(ho, or.O))
 }
 
 func tokTable(t *schema.Table, w *[]string) {
 	*w = append(*w, hx(t.Name), b01(hasAttr(t.Attrs, &sqlite.WithoutRowID{})), b01(hasAttr(t.Attrs, &sqlite.Strict{})), strconv.Itoa(len(t.Columns)))
 	for _, c := range t.Columns {
-		tokCol(c, w)
+		tokCol(t, c, w)
 	}
 	if t.PrimaryKey == nil {
 		*w = append(*w, "~")
@@ -303,4 +466,3 @@ func tokSchema(s *schema.Schema) string {
 	return strings.Join(w, " ")
 }
 
-var _ = postgres.DefaultDiff
